@@ -42,6 +42,8 @@ def render(c):
     if preds:
         head += " where " + ", ".join(preds)
     body = []
+    if "doc" in cs and int(c["case"]) % 2 == 1:
+        body.append("    //! Inner documentation of the trait.\n    #![allow(non_snake_case)]")
     if "assoc-type" in cs:
         body.append("    /// An associated type.\n    type A: Send;")
     m = ""
@@ -80,7 +82,8 @@ def normal(t):
                    "futpath": fut.get("future_path", ""), "default": m["default"]})
     return {"found": True, "name": t["name"], "vis": t["vis"], "unsafe": t["unsafe"], "generics": [p["text"] for p in t["generics"]["params"]],
             "where": [w["text"] for w in t["generics"]["where"]], "supers": t["supers"],
-            "attrs": [{"text": a["text"], "kind": a["kind"]} for a in t["attrs"]], "methods": ms,
+            # (an inner attribute `#![..]` and the outer `#[..]` are the same attribute of the trait)
+            "attrs": [{"text": a["text"].replace("# ! [", "# [", 1), "kind": a["kind"]} for a in t["attrs"]], "methods": ms,
             "assoc": [a["text"] for a in t["assoc_types"]] + t["other_items"]}
 
 
@@ -129,7 +132,7 @@ def main():
     chk.cov["evaluations"] = len(events)
     chk.cov["cases_enumerated"] = len(cases)
     chk.cov["distinct_nontrivial"] = sum(1 for e in events if e["o"]["found"] and len(byid[e["case"]]["comps"]) >= 1)
-    chk.cov["rule"] = ("every subset of 13 trait components {doc, lint attribute, pub, unsafe, generics (6 shapes: type / const-before-type / lifetime / defaulted / all / two lifetimes with an outlives where-predicate), supertrait, where, default body, "
+    chk.cov["rule"] = ("every subset of 13 trait components {doc (every second case additionally as inner doc + inner lint attribute), lint attribute, pub, unsafe, generics (6 shapes: type / const-before-type / lifetime / defaulted / all / two lifetimes with an outlives where-predicate), supertrait, where, default body, "
                        "associated type, method doc/attribute, method cfg, async methods, second method} x 8 trait-mode option sets; quick: all "
                        "subsets of size <= 2 and >= 11 plus 1500 seeded others; non-trivial = expanded and at least one component")
     chk.cov["exhaustive"] = bool(thorough)
